@@ -753,6 +753,15 @@ func (x *Exec) atExit(st *State, ret *ssa.Return, vals []Value) {
 			vars[k] = v
 		}
 	}
+	x.lastResults = nil
+	for i := 0; i < rs.Len(); i++ {
+		n := rs.At(i).Name()
+		if n == "" || n == "_" {
+			n = fmt.Sprintf("result%d", i)
+		}
+		x.lastResults = append(x.lastResults, replayParam{Name: n, Ty: rs.At(i).Type(), V: vals[i]})
+	}
+	defer func() { x.lastResults = nil }()
 	env := &Env{X: x, St: st, Old: st.Old, Vars: vars, OldVars: x.ParamVals, FC: fc, PkgPath: x.Pkg}
 	if os.Getenv("GOVC_DEBUG") != "" {
 		for k, v := range st.Ghost {
